@@ -5,7 +5,7 @@ Pipeline (DESIGN.md section 4.4): translate /repo's headers into Lean (tie T) ->
 the model driver -> audit (forbidden constructs, axioms) -> build the C++ harnesses from /repo's working tree ->
 run implementation, model and oracles on the same inputs (tie C) -> if a proof obligation or the correspondence
 broke, search for a concrete failing input -> evidence file, VIOLATION / KNOWN-FINDING lines, exit code."""
-import argparse, importlib, json, os, sys, time, traceback
+import argparse, importlib, json, os, re, sys, time, traceback
 
 sys.path.insert(0, os.path.dirname(os.path.abspath(__file__)))
 from vlib import common as C
@@ -39,6 +39,23 @@ class Ctx:
             if not ok:
                 errs = [l for l in log.splitlines() if 'error' in l.lower()][:6]
                 detail = ' | '.join(errs) if errs else log[-600:]
+                # name the declarations the errors fall in (file:line -> enclosing theorem / def)
+                decls = []
+                for m in re.finditer(r'error: (\S+?\.lean):(\d+):', log):
+                    fpath = os.path.join(C.LEAN, m.group(1))
+                    try:
+                        src = open(fpath).read().splitlines()
+                    except OSError:
+                        continue
+                    for k in range(min(int(m.group(2)), len(src)) - 1, -1, -1):
+                        mm = re.match(r'\s*(?:private\s+)?(?:theorem|def|instance|abbrev|structure|example)\s+(\S+)', src[k])
+                        if mm:
+                            d = f'{os.path.basename(m.group(1))}:{mm.group(1)}'
+                            if d not in decls:
+                                decls.append(d)
+                            break
+                if decls:
+                    detail = 'first failing declarations: ' + ', '.join(decls[:6]) + ' | ' + detail
                 ok_all = False
             self.obligation('build:' + mod, ok, detail)
         if need_driver:
